@@ -433,6 +433,7 @@ func (p *c16) Run(tier string, seed int64, idx int) core.CaseResult {
 		res.Fail("C16/leaf-not-found", input, msg)
 		return res
 	}
+	var kept []keptErr
 	for _, pr := range c.probes {
 		if c.unassert[pr] {
 			res.Ev("unasserted_probes", 1)
@@ -470,6 +471,9 @@ func (p *c16) Run(tier string, seed int64, idx int) core.CaseResult {
 			}
 			if ep != wantPath {
 				res.Fail("C16/rejection-without-value-path/"+c.kind, in, fmt.Sprintf("error-path %q, expected %q (%v)", ep, wantPath, err))
+			} else {
+				// a caller may keep the error: it must still name this value after later rejections
+				kept = append(kept, keptErr{err, wantPath, in})
 			}
 			if c.msg != "" && c16ViolatesOnly(c, pr) {
 				res.Ev("custom_message_checks", 1)
@@ -479,10 +483,22 @@ func (p *c16) Run(tier string, seed int64, idx int) core.CaseResult {
 			}
 		}
 	}
+	for _, k := range kept {
+		res.Ev("kept_errors_re_read", 1)
+		if ep, _, _ := errFields(k.err); ep != k.path {
+			res.Fail("C16/kept-error-changed-by-a-later-rejection/"+c.kind, k.in, fmt.Sprintf("the error carried path %q when it was returned; after the later validations it carries %q", k.path, ep))
+			break
+		}
+	}
 	if idx%499 == 0 {
 		res.Sample = map[string]interface{}{"kind": c.kind, "probes": len(c.probes), "type": texts[c.leafMod]}
 	}
 	return res
+}
+
+type keptErr struct {
+	err      error
+	path, in string
 }
 
 // c16ViolatesOnly: the probe is lexically fine and violates exactly the
